@@ -7,9 +7,12 @@ Kernel specification `<kspec>` (one or more tokens); `<fb>` is `filterBoundary()
 `setFilterBoundary` was never called on the object (the class attribute of `Globals.initial`):
   list <weights>                      a Python list of weights
   dirac <fb>                          DiracKernel
-  uni <fb> <size> | tri <fb> <size> | epa <fb> <size>
-                                      Uniform / Triangular / Epanechnikov kernel, function and support
-                                      computed by the model
+  uni <fb> <size> | tri <fb> <size> | epa <fb> <size> | cub <fb> <size> | sph <fb> <size>
+                                      Uniform / Triangular / Epanechnikov / Cubic / Spheric kernel, function and
+                                      support computed by the model
+  gau <fb> <sigma> | expo <fb> <sigma>
+                                      (floats only) Gaussian / Exponential kernel computed by the model with
+                                      `Float.exp` / `Float.sqrt` (the C library's, as `math.exp` / `math.sqrt`)
   user <fb> <support> <values>        a user-defined kernel (`Kernel` + `setFunction`) whose function is
                                       `values[|x|]` at the integers `|x| < len(values)` and 0 elsewhere
   fn <fb> <support> <x:fx,x:fx,…>     any other Kernel object: its function as a table evaluated by
@@ -17,6 +20,7 @@ Kernel specification `<kspec>` (one or more tokens); `<fb>` is `filterBoundary()
                                       points; a point missing from the table is a bad request)
   int <n>                             (seq / session only) an integer kernel
   feat <name>                         (op / seq / session only) a kernel given as the name of a feature
+  num                                 (op / seq / session only) a float given as kernel (refused with a TypeError)
 `int(support)` is computed here (floor; support ≥ 1 or the model reports the error first).
 
 `<dim>`: `D` (argument omitted), `C:<FILTER_…>` (module constant), `L:<names>` (list), `S:<chars>` (a str).
@@ -27,7 +31,14 @@ Commands:
   sw <sc> <kspec>                          → ok <sliding window> | err:<kind>
   op <sc> <af_in> <af_out> <names> <signals ;> <kspec>
                                            → ok <weight list after the call | none> <output> <names> <signals ;> | err:<kind>
+  opa <sc> one <af_in> <af_out | -> <names> <signals ;> <kspec>
+  opa <sc> many <ins ,> <outs , | -> <names> <signals ;> <kspec>
+                                           the argument forms of `Track.operate` (`-`: third argument omitted)
+                                           → ok <weight list after the call | none> <returned list | none> <names> <signals ;> | err:<kind>
   seq <sc> <dim> <names> <signals ;> <kspec> → ok <names> <signals ;> <globals> | err:<kind> <globals>
+  seqn <sc> <n> <dim> <names> <signals ;> <kspec>
+                                           `filter_seq` called n times on the same track with the same kernel object
+                                           → the replies of `seq` after every call, separated by ` # ` (stops at a failure)
   session <sc> <n> { <dim> <names> <signals ;> <m> <kspec of m tokens> }*n
                                            → n replies of `seq` separated by ` # ` -/
 namespace TV.Drv.C15
@@ -39,9 +50,13 @@ structure Sc (α : Type) where
   parse : String → Option α
   shw : α → String
   floorNat : α → Nat
+  /-- `math.exp` and `math.sqrt(2 * math.pi)` (floats only) -/
+  expF : Option (α → α)
+  sqrt2pi : Option α
 
-def scRat : Sc Rat := ⟨rat?, showRat, fun r => r.floor.toNat⟩
-def scFloat : Sc Float := ⟨fun s => if s == "nan" then none else float? s, showFloat, fun f => f.floor.toUInt64.toNat⟩
+def scRat : Sc Rat := ⟨rat?, showRat, fun r => r.floor.toNat, none, none⟩
+def scFloat : Sc Float := ⟨fun s => if s == "nan" then none else float? s, showFloat, fun f => f.floor.toUInt64.toNat,
+  some Float.exp, some (Float.sqrt (2 * 3.141592653589793))⟩
 
 def showErr : Err → String
   | .evenKernel => "err:even-kernel"
@@ -51,6 +66,8 @@ def showErr : Err → String
   | .feature => "err:feature"
   | .emptyTrack => "err:empty-track"
   | .nanKernel => "err:nan-kernel"
+  | .operands => "err:operands"
+  | .kernelType => "err:kernel-type"
 
 section
 variable {α : Type} [Add α] [Sub α] [Mul α] [Div α] [Neg α] [LT α] [LE α] [DecidableLT α] [DecidableLE α]
@@ -92,6 +109,25 @@ def kspec? (sc : Sc α) : List String → Option (KArg α)
     let b ← fb? fb
     let s ← sc.parse size
     pure (KArg.obj false b (epanechnikovF s) (epanechnikovSupport s) (sc.floorNat (epanechnikovSupport s)))
+  | ["cub", fb, size] => do
+    let b ← fb? fb
+    let s ← sc.parse size
+    pure (KArg.obj false b (cubicF s) (cubicSupport s) (sc.floorNat (cubicSupport s)))
+  | ["sph", fb, size] => do
+    let b ← fb? fb
+    let s ← sc.parse size
+    pure (KArg.obj false b (sphericF s) (sphericSupport s) (sc.floorNat (sphericSupport s)))
+  | ["gau", fb, size] => do
+    let b ← fb? fb
+    let s ← sc.parse size
+    let e ← sc.expF
+    let c ← sc.sqrt2pi
+    pure (KArg.obj false b (gaussianF e c s) (gaussianSupport s) (sc.floorNat (gaussianSupport s)))
+  | ["expo", fb, size] => do
+    let b ← fb? fb
+    let s ← sc.parse size
+    let e ← sc.expF
+    pure (KArg.obj false b (exponentialF e s) (exponentialSupport s) (sc.floorNat (exponentialSupport s)))
   | ["user", fb, support, vals] => do
     let b ← fb? fb
     let sup ← sc.parse support
@@ -110,6 +146,7 @@ def kspec? (sc : Sc α) : List String → Option (KArg α)
 
 def seqArg? (sc : Sc α) : List String → Option (SeqArg α)
   | ["int", n] => n.toInt?.map SeqArg.int
+  | ["num"] => some SeqArg.num
   | ["feat", n] => if n == "t" || n == "timestamp" || n == "idx" then none else some (SeqArg.feat n)
   | ks => (kspec? sc ks).map SeqArg.k
 
@@ -174,6 +211,7 @@ def handleSc (sc : Sc α) (cmd : String) (args : List String) : String :=
       let src : Option (KSrc α) := match k with
         | .k a => some (.arg a)
         | .feat n => some (.feat n)
+        | .num => some .num
         | .int _ => none
       match src with
       | none => "bad-request"
@@ -186,10 +224,40 @@ def handleSc (sc : Sc α) (cmd : String) (args : List String) : String :=
           s!"ok {kafter} {showSignal sc out} {showTrack sc t'}"
         | .error e => showErr e
     | _, _ => "bad-request"
+  | "opa", form :: a1 :: a3 :: names :: sigs :: ks =>
+    match seqArg? sc ks, track? sc names sigs with
+    | some k, some t =>
+      let src : Option (KSrc α) := match k with
+        | .k a => some (.arg a)
+        | .feat n => some (.feat n)
+        | .num => some .num
+        | .int _ => none
+      let nm : Option OpNames :=
+        if form == "one" then some (.one a1 (if a3 == "-" then none else some a3))
+        else if form == "many" then some (.many (splitTok a1 ',') (if a3 == "-" then none else some (splitTok a3 ',')))
+        else none
+      match src, nm with
+      | some src, some nm =>
+        match operateArgs t src nm with
+        | .ok (k', ret, t') =>
+          let kafter := match k' with
+            | .arg (.list l) => showList sc.shw l
+            | _ => "none"
+          let r := match ret with
+            | some out => showSignal sc out
+            | none => "none"
+          s!"ok {kafter} {r} {showTrack sc t'}"
+        | .error e => showErr e
+      | _, _ => "bad-request"
+    | _, _ => "bad-request"
   | "seq", dim :: names :: sigs :: ks =>
     match seqArg? sc ks, track? sc names sigs, dim? dim with
     | some k, some t, some d => showCall sc (filterSeqCall Globals.initial t k d)
     | _, _, _ => "bad-request"
+  | "seqn", n :: dim :: names :: sigs :: ks =>
+    match n.toNat?, seqArg? sc ks, track? sc names sigs, dim? dim with
+    | some n, some k, some t, some d => joinWith " # " ((filterSeqRepeat Globals.initial t k d n).map (showCall sc))
+    | _, _, _, _ => "bad-request"
   | "smooth", names :: sigs :: ks =>
     match kspec? sc ks, track? sc names sigs with
     | some (KArg.obj false _ f sup S), some t => showCall sc (smooth Globals.initial t f sup S)
